@@ -466,7 +466,7 @@ structure MInv (cfg : Cfg) (x : State) : Prop where
 
 /-- the abstract entry of a connection agrees with its table entry -/
 def TabEq (am : AMod) (m : Module) : Prop :=
-  am.uid = m.uid ∧ am.modId = m.modId ∧ am.pid = m.pid ∧ am.connected = m.connected
+  am.uid = m.uid ∧ am.modId = m.modId ∧ am.pid = m.pid ∧ am.connected = m.connected ∧ am.isLogger = m.isLogger
 
 /-- the manager's own table entry keeps module id 0 -/
 def ZeroP (x : State) : Prop := ∀ m ∈ x.mods, m.uid = 0 → m.modId = 0
@@ -491,6 +491,27 @@ theorem mem_depMods_of_open {ms : List AMod} {am : AMod} (h : am ∈ ms) {xs : L
   have hx' : am.uid ∉ xs := by simpa using hx
   exact List.mem_map.mpr ⟨am, h, by simp [hx']⟩
 
+theorem alive_of_dep {ms : List AMod} {xs : List Nat} {am : AMod} (h : am ∈ depMods ms xs) (ha : am.alive = true) : am ∈ ms := by
+  rw [depMods_eq_map] at h
+  obtain ⟨am0, h0, rfl⟩ := List.mem_map.mp h
+  split at ha
+  · simp [deadOf] at ha
+  · rename_i hx; simp only [hx, Bool.false_eq_true, if_false]; exact h0
+
+/-- the Spec's writable set agrees with the model's on the live connections -/
+def WL (x : State) (a : A) : Prop := ∀ am ∈ a.mods, am.alive = true → (a.w.contains am.uid = true ↔ am.uid ∈ x.wlist)
+
+theorem wl_step {y y' : State} {a a' : A} (h : WL y a) (hw : y'.wlist = y.wlist) (haw : a'.w = a.w)
+    (hsub : ∀ am' ∈ a'.mods, am'.alive = true → ∃ am ∈ a.mods, am.uid = am'.uid ∧ am.alive = true) : WL y' a' := by
+  intro am' ham' hal
+  obtain ⟨am, ham, hu, hal0⟩ := hsub am' ham' hal
+  rw [haw, hw, ← hu]; exact h am ham hal0
+
+theorem wl_dep {y y' : State} {a : A} (h : WL y a) (hw : y'.wlist = y.wlist) (e : List Ev) : WL y' (applyDepartures a e) := by
+  refine wl_step h hw (by rw [applyDepartures_eq]) (fun am' ham' hal => ?_)
+  rw [applyDepartures_eq] at ham'
+  exact ⟨am', alive_of_dep ham' hal, rfl, hal⟩
+
 /-- entries kept by an operation keep their abstract entries, once the departures of the operation are applied -/
 theorem tab_step {y y' : State} {ams : List AMod} {e : List Ev} {p : Nat → Bool}
     (htab : ∀ m ∈ y.mods, m.uid ≠ 0 → p m.uid = false → ∃ am ∈ ams, TabEq am m) (hrk : RKP p y y')
@@ -500,7 +521,7 @@ theorem tab_step {y y' : State} {ams : List AMod} {e : List Ev} {p : Nat → Boo
   have hf' := find_of_mem hd' hm'
   obtain ⟨m, hm, hk⟩ := hrk m'.uid m' hp hf'
   have hmu := find_uid hm
-  obtain ⟨am, ham, h1, h2, h3, h4⟩ := htab m (mem_of_find hm) (by rw [hmu]; exact h0) (by rw [hmu]; exact hp)
+  obtain ⟨am, ham, h1, h2, h3, h4, h5⟩ := htab m (mem_of_find hm) (by rw [hmu]; exact h0) (by rw [hmu]; exact hp)
   have hcl := hao m'.uid m' hf'
   have ht := hk.1
   simp only [Module.tabv, Prod.mk.injEq] at ht
@@ -515,7 +536,8 @@ theorem tab_step {y y' : State} {ams : List AMod} {e : List Ev} {p : Nat → Boo
       unfold openN at hc
       rw [hop] at hc
       cases h5 : isOpen y m'.uid <;> simp [h5] at hc <;> omega
-  exact ⟨am, mem_depMods_of_open ham hnc, h1.trans hmu, by rw [h2, ht.1], by rw [h3, ht.2.1], by rw [h4, (hk.2 hcl).2]⟩
+  exact ⟨am, mem_depMods_of_open ham hnc, h1.trans hmu, by rw [h2, ht.1], by rw [h3, ht.2.1], by rw [h4, (hk.2 hcl).2],
+    by rw [h5, ht.2.2]⟩
 
 structure Sim (cfg : Cfg) (x : State) (a : A) : Prop where
   now : a.now = x.now
@@ -711,7 +733,8 @@ theorem failing_eq {a : A} {y : State} (h : a.fail = y.fail) (u : Nat) : a.faili
 omit ok hfuel in
 /-- the fields a connect request asks for, as the Spec reads them and as the model writes them -/
 theorem reqOf_setAll (am : AMod) (m : Module) (hp : am.pid = m.pid) (h : Hdr) (buf : List Nat) (nm : List Nat) :
-    (reqOf cfg am h buf).modId = (setAll cfg buf h nm m).modId ∧ (reqOf cfg am h buf).pid = (setAll cfg buf h nm m).pid := by
+    (reqOf cfg am h buf).modId = (setAll cfg buf h nm m).modId ∧ (reqOf cfg am h buf).pid = (setAll cfg buf h nm m).pid ∧
+    (reqOf cfg am h buf).isLogger = (setAll cfg buf h nm m).isLogger := by
   unfold reqOf setAll setReq
   split <;> simp [hp]
 
@@ -731,19 +754,21 @@ theorem subF_tab (ty allT : Int) (add : Bool) (x : AMod) :
       else if x.subAll then x
       else if add then { x with types := if x.types.contains ty then x.types else x.types ++ [ty] }
       else { x with types := x.types.filter (· != ty) })
-    y.uid = x.uid ∧ y.modId = x.modId ∧ y.pid = x.pid ∧ y.connected = x.connected := by
+    y.uid = x.uid ∧ y.modId = x.modId ∧ y.pid = x.pid ∧ y.connected = x.connected ∧ y.isLogger = x.isLogger := by
   dsimp only
   repeat' split
-  all_goals exact ⟨rfl, rfl, rfl, rfl⟩
+  all_goals exact ⟨rfl, rfl, rfl, rfl, rfl⟩
 
 omit ok hfuel in
 theorem tabEq_keep {am am' : AMod} {m m' : Module} (h : TabEq am m) (hk : KeepRec m m') (hcl : m'.closed = false)
     (hu : m'.uid = m.uid)
-    (ha : am'.uid = am.uid ∧ am'.modId = am.modId ∧ am'.pid = am.pid ∧ am'.connected = am.connected) : TabEq am' m' := by
+    (ha : am'.uid = am.uid ∧ am'.modId = am.modId ∧ am'.pid = am.pid ∧ am'.connected = am.connected ∧ am'.isLogger = am.isLogger) :
+    TabEq am' m' := by
   have ht := hk.1
   simp only [Module.tabv, Prod.mk.injEq] at ht
-  obtain ⟨h1, h2, h3, h4⟩ := h
-  exact ⟨by rw [ha.1, h1, hu], by rw [ha.2.1, h2, ht.1], by rw [ha.2.2.1, h3, ht.2.1], by rw [ha.2.2.2, h4, (hk.2 hcl).2]⟩
+  obtain ⟨h1, h2, h3, h4, h5⟩ := h
+  exact ⟨by rw [ha.1, h1, hu], by rw [ha.2.1, h2, ht.1], by rw [ha.2.2.1, h3, ht.2.1], by rw [ha.2.2.2.1, h4, (hk.2 hcl).2],
+    by rw [ha.2.2.2.2, h5, ht.2.2]⟩
 
 /-- **the entry of the connection a frame was read from**: what `segF` writes into the abstract entry is what the model
     left in the table entry (if the connection is still in the table) -/
@@ -776,14 +801,14 @@ theorem read_own {y : State} {a : A} (hI : MInv cfg y) (hS : Sim cfg y a) (rd : 
     by_cases hc : (rd.h.mtype == cfg.mtConnect || rd.h.mtype == cfg.mtConnectV2) = true
     · simp only [hc, if_true]
       by_cases hcn : m.connected = true
-      · have : am.connected = true := hte.2.2.2.trans hcn
+      · have : am.connected = true := hte.2.2.2.1.trans hcn
         simp only [this, if_true]
         rw [process_connected_noop cfg _ _ _ m hm0 hcn hc, hm0] at hm1
         cases hm1; exact hte
       · have hcn' : m.connected = false := by simpa using hcn
-        have : am.connected = false := hte.2.2.2.trans hcn'
+        have : am.connected = false := hte.2.2.2.1.trans hcn'
         simp only [this, Bool.false_eq_true, if_false]
-        obtain ⟨nm, hnm, hc1, hp1, _, hmod, hfl, rest, hacks⟩ :=
+        obtain ⟨nm, hnm, hc1, hp1, hlg1, hmod, hfl, rest, hacks⟩ :=
           connect_survivor ok hfuel hI0.top hI0.k.distinct rd.uid rd.h m hm0 hcn' hc m1 hm1
         -- the acknowledgements of the segment start with the one to the requester
         have hde : dataSends isAckB e = (rd.uid, ackFrame cfg m1.modId) :: rest := by
@@ -801,7 +826,7 @@ theorem read_own {y : State} {a : A} (hI : MInv cfg y) (hS : Sim cfg y a) (rd : 
             rw [failing_eq hS.fail]
             have : failOf y rd.uid = none := hfl
             rw [this]; rfl
-          obtain ⟨r1, r2⟩ := reqOf_setAll (cfg := cfg) am m hte.2.2.1 rd.h (afterRead cfg y rd).buf nm
+          obtain ⟨r1, r2, r3⟩ := reqOf_setAll (cfg := cfg) am m hte.2.2.1 rd.h (afterRead cfg y rd).buf nm
           obtain ⟨nm', hnm'⟩ := reqOf_name (cfg := cfg) am m rd.h (afterRead cfg y rd).buf nm hnm
           unfold connF
           rw [hbuf]
@@ -811,9 +836,11 @@ theorem read_own {y : State} {a : A} (hI : MInv cfg y) (hS : Sim cfg y a) (rd : 
           · simp only [hz, if_true]
             have hne : (setAll cfg (afterRead cfg y rd).buf rd.h nm m).modId ≠ 0 := by rw [← r1]; simpa using hz
             exact ⟨hte.1.trans hu1.symm, by show (reqOf cfg am rd.h _).modId = _; rw [r1, hmod hne],
-              by show (reqOf cfg am rd.h _).pid = _; rw [r2, hp1], by show true = _; rw [hc1]⟩
+              by show (reqOf cfg am rd.h _).pid = _; rw [r2, hp1], by show true = _; rw [hc1],
+              by show (reqOf cfg am rd.h _).isLogger = _; rw [r3, hlg1]⟩
           · simp only [hz, Bool.false_eq_true, if_false]
-            exact ⟨hte.1.trans hu1.symm, hdest, by show (reqOf cfg am rd.h _).pid = _; rw [r2, hp1], by show true = _; rw [hc1]⟩
+            exact ⟨hte.1.trans hu1.symm, hdest, by show (reqOf cfg am rd.h _).pid = _; rw [r2, hp1], by show true = _; rw [hc1],
+              by show (reqOf cfg am rd.h _).isLogger = _; rw [r3, hlg1]⟩
     · have hc' : (rd.h.mtype == cfg.mtConnect || rd.h.mtype == cfg.mtConnectV2) = false := by simpa using hc
       simp only [hc', Bool.false_eq_true, if_false]
       by_cases hd : (rd.h.mtype == cfg.mtDisconnect) = true
@@ -871,7 +898,7 @@ theorem read_own {y : State} {a : A} (hI : MInv cfg y) (hS : Sim cfg y a) (rd : 
               obtain ⟨m0, hm00, hk⟩ := (((rkp_upd (fun _ => false) (afterRead cfg y rd) rd.uid (fun m => { m with name := nm })
                 (fun _ => rfl) (fun m => ⟨rfl, fun h => ⟨h, rfl⟩⟩)).trans (logTop_rk cfg _ 20 _)).trans (infoOf_rk cfg _ _ _)) rd.uid m1 rfl hm1
               rw [hm0] at hm00; cases hm00
-              exact tabEq_keep hte hk hcl1 hu1 ⟨rfl, rfl, rfl, rfl⟩
+              exact tabEq_keep hte hk hcl1 hu1 ⟨rfl, rfl, rfl, rfl, rfl⟩
           · have hn' : (rd.h.mtype == cfg.mtSetName) = false := by simpa using hn
             simp only [hn', Bool.false_eq_true, if_false] at hm1 ⊢
             by_cases hr : (rd.h.mtype == cfg.mtModuleReady) = true
@@ -884,12 +911,12 @@ theorem read_own {y : State} {a : A} (hI : MInv cfg y) (hS : Sim cfg y a) (rd : 
               simp only [Module.tabv, Prod.mk.injEq] at ht
               rw [hbuf]
               exact ⟨hte.1.trans hu1.symm, by show am.modId = _; rw [hte.2.1, ht.1], by show bufI32 _ 0 = _; rw [ht.2.1],
-                by show am.connected = _; rw [hte.2.2.2, (hk.2 hcl1).2]⟩
+                by show am.connected = _; rw [hte.2.2.2.1, (hk.2 hcl1).2], by show am.isLogger = _; rw [hte.2.2.2.2, ht.2.2]⟩
             · have hr' : (rd.h.mtype == cfg.mtModuleReady) = false := by simpa using hr
               simp only [hr', Bool.false_eq_true, if_false] at hm1 ⊢
               obtain ⟨m0, hm00, hk⟩ := ((logTop_rk cfg (fun _ => false) 10 (afterRead cfg y rd)).trans (fwdTop_rk cfg _ _ _)) rd.uid m1 rfl hm1
               rw [hm0] at hm00; cases hm00
-              exact tabEq_keep hte hk hcl1 hu1 ⟨rfl, rfl, rfl, rfl⟩
+              exact tabEq_keep hte hk hcl1 hu1 ⟨rfl, rfl, rfl, rfl, rfl⟩
 
 /-- **one frame read keeps the simulation**: the abstract state after `segX` and the departures of the segment's own
     events corresponds to the model state after `readOne` -/
@@ -1035,7 +1062,7 @@ theorem accept_sim {y : State} {a : A} (hI : MInv cfg y) (hS : Sim cfg y a) :
     · obtain ⟨am, ham, hte⟩ := hS1.tab m h1 h0
       exact ⟨am, List.mem_append.mpr (Or.inl ham), hte⟩
     · simp at h1; subst h1
-      exact ⟨{ uid := a.nAccepted + 1 }, by simp, by show a.nAccepted + 1 = yl.nextUid + 1; rw [hn1], rfl, rfl, rfl⟩
+      exact ⟨{ uid := a.nAccepted + 1 }, by simp, by show a.nAccepted + 1 = yl.nextUid + 1; rw [hn1], rfl, rfl, rfl, rfl⟩
   · intro m hm h0
     have hm' : m ∈ yl.mods ++ [({ uid := yl.nextUid + 1 } : Module)] := hm
     rcases List.mem_append.mp hm' with h1 | h1
